@@ -47,6 +47,9 @@ def jobs(ctx):
     rep = dict(base(strat, 1), reactor=[('store', 'b', 1, 2.0), ('store', 'c', 1, 4.0), ('report',), ('store', 'a', 2, 3.0)])
     out.append((rep, (ctx.pick(1, 2), 0)))
     out.append((dict(rep, reactor=[('store', 'b', 1, 2.0), ('report',), ('store', 'c', 1, 4.0), ('report',)]), (1, 1)))
+  # an update limit below one per second (the bucket never holds a whole token: every update waits for its deficit)
+  for strat in ('sorted',) if not ctx.thorough else ('sorted', 'timesorted'):
+    out.append((dict(base(strat, INF), max_updates=0.5, see_buckets=True, line_pattern=r'cache|reactor|sleep|BUCKET|settings'), (1, 1)))
   if not ctx.thorough:
     for strat in ('max', 'naive', 'random'):
       out.append((base(strat, INF), (0, 1) if strat != 'random' else (0, 2)))
